@@ -25,7 +25,7 @@ META = {
     "note": "Print Assumptions: closed under the global context (no axioms). Reading (DESIGN 6.00): at most one simulated effect per "
             "time point in a collection, set_simulated_effect replaces (C24_two_simulated_effects_order_matters proves the hypothesis is "
             "needed). Timed containers: a Timing key bound to an empty dict/set (setdefault) is identified with an absent key. "
-            "Observations travel as one base-64 numeral per insertion (Corr_C24.enc_step, injective on valid digit lists). "
+            "Observations travel as one base-64 numeral per insertion order (Corr_C24.enc_order; positional notation, leading digit 1). "
             "The model describes the code after fix commit 2309d85 (rejected increase no longer recorded).",
 }
 
@@ -192,15 +192,27 @@ def snap_digits(s):
     return ds
 
 
-def enc_step(raised, snaps):
-    ds = [1 if raised else 0]
-    for s in snaps:
-        ds += snap_digits(s)
-    assert all(0 <= d < BASE for d in ds), ds
+def enc_order(steps):
+    """Corr_C24.enc_order: all digits of all steps of one insertion order as one base-64 numeral with a leading 1."""
     n = 1
-    for d in ds:
-        n = n * BASE + d
+    for raised, snaps, _ in steps:
+        ds = [1 if raised else 0]
+        for s in snaps:
+            ds += snap_digits(s)
+        assert all(0 <= d < BASE for d in ds), ds
+        for d in ds:
+            n = (n << 6) | d
     return n
+
+
+def distinct_orders(items):
+    """All distinct permutations, in the order of first occurrence in itertools.permutations (Corr_C24.dedup_first)."""
+    seen, out = set(), []
+    for p in itertools.permutations(items):
+        if p not in seen:
+            seen.add(p)
+            out.append(list(p))
+    return out
 
 
 def run_case(rn, pre, t, items, orders, watch):
@@ -316,7 +328,7 @@ def ser_case(w, kind, pre, t, items, orders, watch, obs):
         glist([gnat(i) for i in items]),
         glist([glist([gnat(i) for i in o]) for o in orders]) if orders is not None else "[]",
         glist([gn(x) for x in watch]),
-        glist([glist(["%d%%N" % enc_step(r, cur) for r, cur, _ in steps]) for steps in obs]))
+        glist(["%d%%c24" % enc_order(steps) for steps in obs]))
 
 
 def run(ctx):
@@ -335,7 +347,7 @@ def run(ctx):
     oracle_fail = []
     for (kind, pre, t, items, orders, watch, block) in gen_cases(w, ctx.rng, ctx.quick):
         rn = runners[kind]
-        all_orders = [list(p) for p in itertools.permutations(items)] if orders is None else orders
+        all_orders = distinct_orders(items) if orders is None else orders
         obs = run_case(rn, pre, t, items, all_orders, watch)
         nsim = sum(1 for i in items if w.is_sim(i)) + sum(1 for pt, pi in pre if pt == t and w.is_sim(pi))
         verdict = property_verdict(obs, nsim <= 1)
@@ -343,7 +355,7 @@ def run(ctx):
         cases.append(ser_case(w, kind, pre, t, items, orders, watch, obs))
         raw.append({"container": kind, "pre": pre, "time_point": t, "collection": items,
                     "members": [repr(w.members[i][:2]) if w.is_sim(i) else repr(w.members[i]) for i in items],
-                    "orders": "all permutations" if orders is None else orders, "watch": watch, "block": block,
+                    "orders": "all distinct permutations" if orders is None else orders, "watch": watch, "block": block,
                     "some_insertion_raised_per_order": [any(r for r, _, _ in steps) for steps in obs]})
         if verdict:
             oracle_fail.append((idx, verdict))
